@@ -1058,7 +1058,8 @@ def x_dump_file(data=None, path=None, want_dis=True, max_code=None, route="load_
             import io as _io
             cmp_op = list(getattr(opc, "cmp_op", ()))
             for c, d in zip(codes, r["dis"]):
-                if "instrs" not in d or len(d["instrs"]) > 300:
+                has_ext = "instrs" in d and any(i_["n"] == "EXTENDED_ARG" for i_ in d["instrs"])
+                if "instrs" not in d or len(d["instrs"]) > (1300 if has_ext else 300):
                     continue
                 for fmt in ("classic", "asm"):
                     try:
